@@ -25,9 +25,13 @@ def one(d):
         if res[tier] == 'caught with a failing input':
             break
     m['final_run'] = res
-    best = res.get('quick') if res.get('quick') != 'missed' else res.get('thorough', 'missed')
-    tier = 'quick' if res.get('quick') != 'missed' else 'thorough'
-    m['caught_by'] = f"./check {p} {tier}: {best}" if best != 'missed' else 'MISSED'
+    q, t = res.get('quick', 'missed'), res.get('thorough', 'missed')
+    parts = []
+    if q != 'missed':
+        parts.append(f"./check {p} quick: {q}")
+    if not q.startswith('caught') and t != 'missed':
+        parts.append(f"./check {p} thorough: {t}")
+    m['caught_by'] = '; '.join(parts) if parts else 'MISSED'
     json.dump(m, open(d + '/meta.json', 'w'), indent=1)
     return sid, m['caught_by']
 dirs = sorted(d for d in glob.glob(V + '/seeded/*') if os.path.isdir(d) and (not only or os.path.basename(d) in only or any(os.path.basename(d).startswith(o) for o in only)))
